@@ -29,6 +29,7 @@ import os
 import random
 import re
 import shutil
+import threading
 
 import common
 import corpus
@@ -159,6 +160,8 @@ def _ok_scalar(v):
 BIAS_KINDS = {
     "harmonic": dict(kw="harmonic", nv=1, ok=lambda v: True),
     "hmove": dict(kw="harmonic", nv=1, ok=lambda v: v["scalar"] and not v["periodic"]),
+    # restraint with its own timeStepFactor on a variable computed at every step: asleep at odd steps
+    "hmts": dict(kw="harmonic", nv=1, ok=lambda v: v["scalar"] and v["tsf"] == 1),
     "walls": dict(kw="harmonicWalls", nv=1, ok=lambda v: v["scalar"] and not v["periodic"]),
     "linear": dict(kw="linear", nv=1, ok=lambda v: v["scalar"] and not v["periodic"]),
     "abf": dict(kw="abf", nv=1, ok=lambda v: v["scalar"] and v["tf"]),
@@ -181,6 +184,8 @@ def bias_text(kind, vs):
     name = bias_name(kind, vs)
     kw = BIAS_KINDS[kind]["kw"]
     tsf = max(VARS[v]["tsf"] for v in vs)
+    if kind == "hmts":
+        tsf = 2
     head = "%s {\n  name %s\n  colvars %s\n" % (kw, name, " ".join(vs))
     if tsf > 1:
         head += "  timeStepFactor %d\n" % tsf
@@ -188,6 +193,8 @@ def bias_text(kind, vs):
     c = CENTER[v0]
     if kind == "harmonic":
         body = "  centers %s\n  forceConstant 2.5\n" % c
+    elif kind == "hmts":
+        body = "  centers %s\n  forceConstant 1.25\n" % c
     elif kind == "hmove":
         body = "  centers %s\n  targetCenters %s\n  targetNumSteps 24\n  forceConstant 1.5\n  outputCenters on\n" % (c, fnum(float(c) + 1.5))
     elif kind == "walls":
@@ -252,6 +259,12 @@ REJ_ATOMS = {"var_badkey": [1, 2, 23, 4, 24], "var_badvalue": [5, 23, 6], "var_b
 #   ("step",) ("reject", kind, k)
 # ---------------------------------------------------------------------------------------------------
 
+def bias_tsf(bname):
+    vs = bias_vars(bname) or []
+    t = max([VARS.get(v, {}).get("tsf", 1) for v in vs] + [1])
+    return 2 if bname.startswith("bhmts_") else t
+
+
 def bias_vars(bname):
     """variables a catalogue bias uses, from its name"""
     m = re.match(r"^b([a-z0-9]+)_([a-z]+)$", bname)
@@ -309,7 +322,7 @@ def prog_str(prog):
 
 # reduced alphabet of the exhaustive enumeration: 2 variables x 3 bias kinds
 EX_VARS = ["va", "vk"]
-EX_BIAS = [("harmonic", ("va",)), ("harmonic", ("vk",)), ("abf", ("va",)), ("meta", ("va",)), ("meta", ("vk",))]
+EX_BIAS = [("harmonic", ("va",)), ("harmonic", ("vk",)), ("abf", ("va",)), ("meta", ("va",)), ("meta", ("vk",)), ("hmts", ("va",))]
 
 
 def ex_moves(m):
@@ -513,12 +526,14 @@ def scenario_fresh(cfgs, prefix, tfmode, names, nsteps_done):
 # ---------------------------------------------------------------------------------------------------
 
 _EXE = {}
+_EXE_LOCK = threading.Lock()
 
 
 def esim_exe():
-    if FLAV not in _EXE:
-        _EXE[FLAV] = common.vbuild.tool(FLAV, "esim")
-    return _EXE[FLAV]
+    with _EXE_LOCK:
+        if FLAV not in _EXE:
+            _EXE[FLAV] = common.vbuild.tool(FLAV, "esim")
+        return _EXE[FLAV]
 
 
 def run_scn(text, wd, name, timeout=180):
@@ -526,8 +541,18 @@ def run_scn(text, wd, name, timeout=180):
     sp = os.path.join(wd, name + ".scn")
     with open(sp, "w") as f:
         f.write(text)
-    r = common.run_proc([esim_exe(), sp], timeout=timeout, cwd=wd)
-    if r["timeout"]:
+    r = None
+    for attempt in range(3):
+        try:
+            r = common.run_proc([esim_exe(), sp], timeout=timeout, cwd=wd)
+            break
+        except (FileNotFoundError, PermissionError):
+            # the cache entry was replaced because the repository changed while we run: rebuild and retry
+            with _EXE_LOCK:
+                _EXE.pop(FLAV, None)
+    if r is None:
+        r = dict(rc=None, sig=0, out="", err="esim executable unavailable", timeout=True)
+    if r["timeout"] and r["rc"] is None and r["err"] != "esim executable unavailable":
         r = common.run_proc([esim_exe(), sp], timeout=timeout * 4, cwd=wd)
     ev = common.parse_events(r["out"])
     r["complete"] = bool(ev) and ev[-1].get("ev") == "end"
@@ -542,6 +567,24 @@ def lib_frame(err):
             fn = re.sub(r"\(.*$", "", m.group(1)).strip()
             return "%s@%s" % (fn[:60], m.group(3))
     return "?"
+
+
+def teardown_errors(r):
+    """error lines printed while the module is destroyed at the end of a scenario (the simulator's own proxy is gone
+    by then, so the library's base class prints them)"""
+    out = []
+    for line in (r["err"] + "\n" + r["out"]).splitlines():
+        if line.startswith("colvars:") and "rror" in line:
+            out.append(line[8:].strip())
+    return out
+
+
+def norm_msg(s):
+    s = re.sub(r'colvar [A-Za-z0-9_]+', "colvar", s)
+    s = re.sub(r'bias [A-Za-z0-9_]+', "bias", s)
+    s = re.sub(r'"', "", s)
+    s = re.sub(r"-?\d+", "N", s)
+    return s[:90]
 
 
 def crash_key(r):
@@ -725,6 +768,8 @@ def cmp_exact(a, b, path):
 
 def field_class(path):
     """coarse class of a differing field for the violation key"""
+    if path.startswith("structure:"):
+        return "presence_of:" + field_class(path[len("structure:"):])
     m = re.match(r"^/?(cv|bias)/([^/\[]+)/([a-z]+)", path)
     if m:
         return "%s.%s" % (m.group(1), m.group(3))
@@ -863,20 +908,38 @@ def expected_atoms(varlist):
     return len(s)
 
 
-def check_deps(res, where, label, rep, files):
+def check_deps(res, where, label, rep, files, cls=None, allow=None, rejected=False):
+    """cls: class of the command after which the report was taken (part of the violation key).
+    allow: {(object, feature): excess references tolerated}, filled when `rejected` (the command was a configuration
+    that the library rejected: colvardeps::enable() does not roll back the references taken before the failure)"""
+    cls0 = cls
     res["ndeps"] += 1
     res["objects"] += rep.get("objects", 0)
     res["features"] += rep.get("features_enabled", 0)
+    if res.get("graph_cls") is None and (rep.get("viol") or any(not refdiff_class(v).endswith(":above") for v in rep.get("refdiff", []))):
+        res["graph_cls"] = cls or where     # class of the FIRST command after which the graph is broken
+    gc = res.get("graph_cls") or cls or where
     for v in rep.get("viol", []):
-        res["viol"].append(("deps:" + norm_viol(v), "%s after %s: %s" % (where, label, v), files))
+        res["viol"].append(("graph:%s:deps:%s" % (gc, norm_viol(v)), "%s after %s: %s" % (where, label, v), files))
     for v in rep.get("refdiff", []):
         cls = refdiff_class(v)
         if cls.endswith(":above"):
-            # more references than dependents: the feature stays pinned; nothing the property speaks about
-            res["pinned"][cls] = res["pinned"].get(cls, 0) + 1
+            # more references than enabled dependents: the feature stays pinned for ever
+            m = re.match(r"^(.*):([^:]+) ref_count=(-?\d+) expect=(-?\d+)$", v)
+            key = (m.group(1), m.group(2)) if m else (v, "")
+            excess = int(m.group(3)) - int(m.group(4)) if m else 1
+            if rejected and allow is not None:
+                allow[key] = max(allow.get(key, 0), excess)
+            if allow is not None and excess <= allow.get(key, 0):
+                # left behind by a rejected definition: a leak, but nothing is switched off under a dependent
+                res["pinned"][cls] = res["pinned"].get(cls, 0) + 1
+            else:
+                # keyed by the kind of command after which this feature of this object was first seen pinned
+                first = res.setdefault("above_first", {}).setdefault((where,) + key, cls0 or where)
+                res["viol"].append(("graph:%s:refcount:%s" % (first, cls), "%s after %s: %s" % (where, label, v), files))
         else:
             # fewer references than enabled dependents (or off while needed): it can be switched off under them
-            res["viol"].append(("refcount:" + cls, "%s after %s: %s" % (where, label, v), files))
+            res["viol"].append(("graph:%s:refcount:%s" % (gc, cls), "%s after %s: %s" % (where, label, v), files))
     if rep.get("viol") or any(not refdiff_class(v).endswith(":above") for v in rep.get("refdiff", [])):
         res["graph_bad"] = True
 
@@ -887,7 +950,7 @@ def run_program(job):
     wd = job["wd"]
     tfmode = job["tfmode"]
     res = dict(idx=job["idx"], prog=prog_str(prog), viol=[], refdiff=[], inconc=[], ndeps=0, objects=0, features=0,
-               changed=False, counters={}, kinds=set(), wd=wd, tol_used=0, removal=removal_kinds(prog), pinned={}, graph_bad=False)
+               changed=False, counters={}, kinds=set(), wd=wd, tol_used=0, removal=removal_kinds(prog), pinned={}, graph_bad=False, graph_cls=None)
 
     def bump(k, n=1):
         res["counters"][k] = res["counters"].get(k, 0) + n
@@ -917,19 +980,40 @@ def run_program(job):
     if P is None:
         res["inconc"].append("event layout unexpected: " + prog_str(prog))
         return res
+
+    def check_teardown(run, rr, what, fl_):
+        """the module is destroyed at the end of every scenario: that deletion must be as clean as any other"""
+        bump("teardowns_checked")
+        te = teardown_errors(rr)
+        if te:
+            last = run["further"][-1].get("it")
+            asleep = [b for b in run["biases"] if bias_tsf(b) > 1 and isinstance(last, int) and last % bias_tsf(b) != 0]
+            res["viol"].append(("graph:%s:teardown_error:%s" % ("delete_sleeping_mts_bias" if asleep else "module_deletion", norm_msg(te[0])),
+                                "%s: destroying the module (objects %s / %s, last step %s) reports: %s" % (what, run["vars"], run["biases"], last, te[:3]), fl_))
+
+    check_teardown(P, r, "program [%s]" % prog_str(prog), files)
     # ---- per-command oracles: deps, object lists, active atoms -------------------------------------
     before_v, before_b = [], []
     created = {}      # name -> index of the command that created the live object
+    leak_allow = {}   # references leaked by rejected definitions (tolerated, counted)
+    last_it = None    # step number of the last step taken
     deaths = []       # (name, index of the creating command, index of the command after which it was gone)
     step_cmds = []    # indices of the step commands
     stepcount = 0
     unexpected = []
     for i, (cmd, o) in enumerate(zip(prog, P["cmds"])):
         label = "command %d (%s) of [%s]" % (i, cmd_str(cmd), prog_str(prog))
-        check_deps(res, "program", label, o["deps"], files)
         op = cmd[0]
-        res["kinds"].add(op if op != "reject" else "reject:" + cmd[1])
+        gcls = op if op != "reject" else "reject:" + cmd[1]
+        if op in ("delbias", "delvar", "reset") and last_it is not None:
+            # biases with timeStepFactor n sleep (are inactive) between their own steps
+            gone = [b for b in before_b if b not in o["biases"]]
+            if any(bias_tsf(b) > 1 and last_it % bias_tsf(b) != 0 for b in gone):
+                gcls = "delete_sleeping_mts_bias"
         main = o["main"]
+        was_rejected = bool(main) and main.get("ev") == "config" and main.get("rc") != 0
+        check_deps(res, "program", label, o["deps"], files, cls=gcls, allow=leak_allow, rejected=was_rejected)
+        res["kinds"].add(op if op != "reject" else "reject:" + cmd[1])
         exp_v, exp_b = list(before_v), list(before_b)
         rejected = False
         if op == "addvar":
@@ -981,10 +1065,12 @@ def run_program(job):
             stepcount += 1
             step_cmds.append(i)
             st = main
+            if st is not None and isinstance(st.get("it"), int):
+                last_it = st["it"]
             if st is not None and (st.get("rc") or st.get("err")):
                 bump("steps_with_error_bits")
     for lab, rep in P["deps"][len(prog):]:
-        check_deps(res, "program", "%s of [%s]" % (lab, prog_str(prog)), rep, files)
+        check_deps(res, "program", "%s of [%s]" % (lab, prog_str(prog)), rep, files, cls="tail", allow=leak_allow)
     if (P["vars"], P["biases"]) != (before_v, before_b):
         res["viol"].append(("object_set:tail", "lists changed without a command: %s %s" % (P["vars"], P["biases"]), files))
     for e in [P["sync"]] + P["further"]:
@@ -1062,6 +1148,7 @@ def run_program(job):
         elif C is None:
             res["inconc"].append("control run unusable for [%s]" % prog_str(prog))
         else:
+            check_teardown(C, rc_, "control program [%s]" % prog_str(ctrl), files_c)
             for (lab, rep) in C["deps"]:
                 check_deps(res, "control", "%s of [%s]" % (lab, prog_str(ctrl)), rep, files_c)
             if (C["vars"], C["biases"]) != (survivors_v, survivors_b):
@@ -1083,14 +1170,15 @@ def run_program(job):
                                 continue
                             if ep["cv"][v].get("on") != ec["cv"][v].get("on") and v not in slept:
                                 slept.add(v)
-                                res["viol"].append(("colvar_inactive:control_body:" + res["removal"] if ep["cv"][v].get("on") == 0 else "control:colvar_active_flag:" + res["removal"],
+                                res["viol"].append(("colvar_inactive:control_body" if ep["cv"][v].get("on") == 0 else "control:colvar_active_flag:" + res["removal"],
                                                     "program [%s] vs control [%s]: at step %s variable %s has active flag %s vs %s; reported value %s, "
                                                     "value in the control %s" % (prog_str(prog), prog_str(ctrl), ep.get("it"), v, ep["cv"][v].get("on"),
                                                                                  ec["cv"][v].get("on"), ep["cv"][v].get("x"), ec["cv"][v].get("x")), files_c))
                 perr = [e.get("it") for e in [P["sync"]] + P["further"] if e.get("rc") or e.get("err")]
                 cerr = [e.get("it") for e in [C["sync"]] + C["further"] if e.get("rc") or e.get("err")]
                 if perr != cerr:
-                    res["viol"].append(("control:step_error:" + res["removal"],
+                    etxt = str([e.get("errs") for e in [P["sync"]] + P["further"] if e.get("errs")][:1])
+                    res["viol"].append((("colvar_inactive:step_error" if "was activated after" in etxt else "control:step_error:" + res["removal"]),
                                         "program [%s] vs control [%s]: steps reporting an error %s vs %s: %s" % (prog_str(prog), prog_str(ctrl), perr, cerr,
                                                                                           [e.get("errs") for e in [P["sync"]] + P["further"] if e.get("errs")][:1]), files_c))
                 if slept or perr != cerr:
@@ -1114,7 +1202,7 @@ def run_program(job):
                     if slot_changed and rel <= 1e-13 and cls not in ("nact", "traj_label", "object_lists", "colvar_inactive"):
                         res["tol_used"] += 1
                         continue
-                    res["viol"].append(("%s:control:%s" % (cls, res["removal"]) if cls == "colvar_inactive" else "control:%s:%s" % (cls, res["removal"]),
+                    res["viol"].append(("colvar_inactive:control" if cls == "colvar_inactive" else "control:%s:%s" % (cls, res["removal"]),
                                         "program [%s] vs control [%s]: %s" % (prog_str(prog), prog_str(ctrl), text), files_c))
                 bump("control_comparisons")
                 bump("tail_steps_compared_control", NFURTHER + 1)
@@ -1149,6 +1237,7 @@ def run_program(job):
     elif F is None:
         res["inconc"].append("fresh run unusable for [%s]" % prog_str(prog))
     else:
+        check_teardown(F, rf, "fresh process with the survivors of [%s]" % prog_str(prog), files_f)
         for (lab, rep) in F["deps"]:
             check_deps(res, "fresh", "%s of the survivors of [%s]" % (lab, prog_str(prog)), rep, files_f)
         bad = [k for k, o in enumerate(F["cmds"]) if not o["main"] or o["main"].get("rc") != 0]
@@ -1169,7 +1258,7 @@ def run_program(job):
             restrict = dict(vars_all=set(survivors_v) - set(ext_v), vars_x=set(survivors_v) - dirty_v, biases=clean_b, full=full,
                             drop_ft=(tfmode == "prev" and not full))
             for cls, text, rel in compare_tail(P, F, preP, preF, restrict=restrict, include_sync=False):
-                res["viol"].append(("%s:fresh:%s" % (cls, res["removal"]) if cls == "colvar_inactive" else "fresh:%s:%s" % (cls, res["removal"]),
+                res["viol"].append(("colvar_inactive:fresh" if cls == "colvar_inactive" else "fresh:%s:%s" % (cls, res["removal"]),
                                     "program [%s] vs fresh process with its survivors %s / %s: %s" % (prog_str(prog), survivors_v, survivors_b, text), files_f))
             bump("fresh_comparisons")
             if full:
@@ -1232,6 +1321,7 @@ def run(tier, replay):
 
     results = common.pmap(work, jobs)
     ndeps = 0
+    keycount = {}
     for job, res in zip(jobs, results):
         c.count()
         c.bump("programs_" + job["kind"])
@@ -1249,14 +1339,22 @@ def run(tier, replay):
             c.nontrivial(res["prog"])
         for text in res["inconc"]:
             c.inconc(text)
+        seen_here = set()
         for key, text, files in res["viol"]:
-            c.violation(key, text, files)
+            if key in seen_here:
+                continue          # the same finding repeats after every later command of the same program
+            seen_here.add(key)
+            keycount[key] = keycount.get(key, 0) + 1
+            if keycount[key] <= 2:
+                c.violation(key, text, files)   # at most two witnesses per class are written out
         for cls, n in sorted(res.get("pinned", {}).items()):
             c.bump("refcount_above_dependents_entries", n)
             c.note_set("refcount_above_dependents_classes", cls)
         if job["kind"] == "random" and res["changed"]:
             c.sample({"program": res["prog"], "tfmode": job["tfmode"], "deps_reports": res["ndeps"], "survivors": res.get("nsurv")}, cap=4)
         shutil.rmtree(res["wd"], ignore_errors=True)
+    if keycount:
+        c.extra["programs_per_violation_key"] = dict(sorted(keycount.items()))
     c.exhaustive = True
     c.extra["exhaustive_max_length"] = maxlen
     c.extra["exhaustive_programs"] = nex
